@@ -27,6 +27,16 @@ class Ml:
         return "h" + b.hex()
 
 
+
+def vcheck_lock():
+    """one process-wide lock for the counters of the check object (the three tree-level ties run side by side)"""
+    import threading
+    import builtins
+    if not hasattr(builtins, "_c10_lock"):
+        builtins._c10_lock = threading.Lock()
+    return builtins._c10_lock
+
+
 def ml_list(xs):
     return "(" + " ".join(xs) + ")"
 
@@ -526,4 +536,5 @@ def run(ck, pairs, tag, describe, num_queries=None):
               "raw_quoted_pieces": nqids, "pairs_request_baseline": npairs, "pairs_whose_value_is_located_in_a_value_piece": located,
               "raw_fragments_kept_as_text": stats.get("raw_fallback", 0), "requests_planned_by_the_model_TraceqlPlan": nmodel, "modes_not_dumped_by_harness_traceql": skipped_modes,
               "numbers_and_durations_as_text": num_hist, "per_site_[pairs,value_located]": by_site}
-    ck.coverage["evaluations"] += len(sqls) + npairs
+    with vcheck_lock():
+        ck.coverage["evaluations"] += len(sqls) + npairs
